@@ -46,14 +46,14 @@ type Tty struct {
 	WriteFail    bool // Write returns an error while set
 	Polling      bool // polling personality: Read returns 0,nil periodically; Drain is a no-op
 	ZeroReads    int  // number of upcoming reads that return 0,nil
-	Faults       map[string]int
+	Faults       FaultCounts
 	MaxReadChunk int
 
 	IOAfterStop []string // I/O calls made between Stop and the next Start
 }
 
 func NewTty(s *simrt.Sim, w, h int) *Tty {
-	return &Tty{S: s, W: w, H: h, Faults: map[string]int{}}
+	return &Tty{S: s, W: w, H: h}
 }
 
 func (t *Tty) who() string {
@@ -98,7 +98,7 @@ func (t *Tty) FireResize() bool {
 // recent NotifyResize(nil): legal for a signal handler already in flight.
 func (t *Tty) FireLateResize() bool {
 	if t.lateCb != nil {
-		t.Faults["late_resize_cb"]++
+		t.Faults.Inc("late_resize_cb")
 		t.lateCb()
 		return true
 	}
@@ -111,7 +111,7 @@ func (t *Tty) Start() error {
 	simrt.Yield("tty.Start")
 	t.Starts++
 	if t.StartFailAt == t.Starts {
-		t.Faults["start_fail"]++
+		t.Faults.Inc("start_fail")
 		t.log("Start", 0, true)
 		return ErrInjected
 	}
@@ -132,7 +132,7 @@ func (t *Tty) Drain() error {
 	simrt.Yield("tty.Drain")
 	t.log("Drain", 0, false)
 	if t.Polling {
-		t.Faults["drain_noop"]++
+		t.Faults.Inc("drain_noop")
 		return nil
 	}
 	t.Drained = true
@@ -162,7 +162,7 @@ func (t *Tty) NotifyResize(cb func()) {
 func (t *Tty) WindowSize() (tcell.WindowSize, error) {
 	simrt.Yield("tty.WindowSize")
 	if t.WinSizeFail {
-		t.Faults["winsize_fail"]++
+		t.Faults.Inc("winsize_fail")
 		t.log("WindowSize", 0, true)
 		return tcell.WindowSize{}, ErrInjected
 	}
@@ -187,7 +187,7 @@ func (t *Tty) Read(b []byte) (int, error) {
 	})
 	if t.ZeroReads > 0 && (len(t.pending) == 0 || t.S.Chooser().IO(2) == 1) {
 		t.ZeroReads--
-		t.Faults["read_zero"]++
+		t.Faults.Inc("read_zero")
 		t.log("Read", 0, false)
 		return 0, nil
 	}
@@ -209,7 +209,7 @@ func (t *Tty) Read(b []byte) (int, error) {
 		}
 		n := max - t.S.Chooser().IO(max)
 		if n < len(t.pending) {
-			t.Faults["read_split"]++
+			t.Faults.Inc("read_split")
 		}
 		copy(b, t.pending[:n])
 		t.pending = t.pending[n:]
@@ -220,7 +220,7 @@ func (t *Tty) Read(b []byte) (int, error) {
 		return n, nil
 	}
 	// injected error
-	t.Faults["read_error"]++
+	t.Faults.Inc("read_error")
 	t.errFired = true
 	err := t.ReadErr
 	t.ReadErr = nil
@@ -231,7 +231,7 @@ func (t *Tty) Read(b []byte) (int, error) {
 func (t *Tty) Write(b []byte) (int, error) {
 	simrt.Yield("tty.Write")
 	if t.WriteFail {
-		t.Faults["write_fail"]++
+		t.Faults.Inc("write_fail")
 		t.log("Write", 0, true)
 		return 0, ErrInjected
 	}
@@ -244,4 +244,43 @@ func (t *Tty) Write(b []byte) (int, error) {
 		t.OnWrite(t.who(), b)
 	}
 	return len(b), nil
+}
+
+// FaultCounts counts fault firings by name.  It is deliberately not a map:
+// it is bumped from simulated goroutines, and in a -race build map
+// operations are visible to the detector whoever performs them.
+type FaultCounts struct {
+	names []string
+	vals  []int
+}
+
+// Inc bumps the counter for name.
+func (f *FaultCounts) Inc(name string) {
+	for i, n := range f.names {
+		if n == name {
+			f.vals[i]++
+			return
+		}
+	}
+	f.names = append(f.names, name)
+	f.vals = append(f.vals, 1)
+}
+
+// Get returns the counter for name.
+func (f *FaultCounts) Get(name string) int {
+	for i, n := range f.names {
+		if n == name {
+			return f.vals[i]
+		}
+	}
+	return 0
+}
+
+// Map returns the counters as a map (driver side).
+func (f *FaultCounts) Map() map[string]int {
+	m := map[string]int{}
+	for i, n := range f.names {
+		m[n] = f.vals[i]
+	}
+	return m
 }
